@@ -37,6 +37,21 @@ CLAIMED = {
             "2(i mod 4) of body byte |body|-1-i/4 and panics exactly for i >= buckets, hex form = nibble-swapped header + body, "
             "clear_checksum zeroes exactly the 1 or 3 checksum bytes.",
             "bitfield-struct modelled as q1+16*q2; hand model tied by the BIN suite"),
+    "C02": ("HEADLINE theorem compare_is_reference: for every pair of hash values of the same variant (all byte patterns), both "
+            "modes, every header-table configuration and every body backend (pseudo-SIMD 32/64, SSE2, SSE4.1, AVX2), "
+            "compare_with_config returns the reference distance.  Body: the lane theorem (a straight-line word program equals the "
+            "lane-wise application of its 8-bit version whenever the reflective checker accepts every lane pair), proved once; per "
+            "run the five kernels are re-read from the source, checked lane-safe and equal to the dibit reference on all 65536 "
+            "lane pairs inside the kernel, and lifted through the horizontal sums and chunk loops.  Header parts: complete "
+            "enumerations (12 configurations x 65536 pairs).",
+            "x86 vector code modelled per 32-bit granule; wrappers (loads, loops, horizontal sums) hand-modelled and tied by the "
+            "per-backend hook suite DIST-BODY; little-endian from_ne_bytes; aarch64/wasm/portable-SIMD backends not compiled here"),
+    "C08": ("Theorems on the comparison model for every configuration, backend, variant and hash pair: d(a,a)=0; default-mode "
+            "d(a,b)=0 implies a=b; d(a,b)=d(b,a); d <= max_distance = 6*buckets + checksum bytes + 168 (+1536) and the bound is "
+            "attained by an explicit pair for every variant and mode; default = no-length + length-part distance; clearing both "
+            "checksums lowers the distance by exactly the number of differing checksum bytes.  Each is the law on the reference "
+            "distance (complete 2^16 enumerations per part, induction over the body) transported by C02's refinement theorem.",
+            "reaches the code through C02's model tie (DIST suites) plus the DIST-LAWS suite evaluating every relation on the public API"),
     "C09": ("Theorems over the length table regenerated from /repo on every run: new(len) never panics and equals the least code "
             "whose top value >= len for all 2^32 lengths under both search strategies; Some iff len <= 4224281216; monotone; range(c) "
             "exact and tiling; 170..255 invalid. Tied to the code by the translator (table re-read each run, cross-checked against "
